@@ -236,7 +236,7 @@ func buildWorld(r *rng.R, small bool) *world {
 	def := &graphql.SchemaDefinition{Query: o0, Directives: map[string]*graphql.DirectiveDefinition{
 		"include": graphql.IncludeDirective, "skip": graphql.SkipDirective,
 		"tag": {
-			Arguments: args("label", nn(graphql.StringType), "n", dv(graphql.IntType, 3), "in", inner, "z", dv(graphql.IntType, schema.Null)),
+			Arguments: args("label", nn(graphql.StringType), "n", dv(graphql.IntType, 3), "in", inner, "z", dv(graphql.IntType, schema.Null), "m", dv(nn(graphql.IntType), 1)),
 			Locations: []schema.DirectiveLocation{schema.DirectiveLocationField, schema.DirectiveLocationQuery, schema.DirectiveLocationFragmentDefinition, schema.DirectiveLocationInlineFragment},
 		},
 		"onFrag": {Locations: []schema.DirectiveLocation{schema.DirectiveLocationFragmentSpread, schema.DirectiveLocationFragmentDefinition, schema.DirectiveLocationMutation, schema.DirectiveLocationSubscription, schema.DirectiveLocationObject}},
